@@ -84,12 +84,12 @@ def KB(base, n, props, fns, desc, cfgs, tier, timeout=1500, mem=4, **kw):
 
 
 # ---- raw table core: bounded-inductive CBMC obligations ----
-def raw_b(base, props, fns, desc, sse2=(4, 8), generic=(8, 16), thorough_sse2=(16,), timeout=1500):
-    for n in sorted(set(sse2) | set(generic) | set(thorough_sse2)):
+def raw_b(base, props, fns, desc, sse2=(4, 8), generic=(8,), thorough_sse2=(16,), thorough_generic=(16,), timeout=1500):
+    for n in sorted(set(sse2) | set(generic) | set(thorough_sse2) | set(thorough_generic)):
         cfgs = []
         if n in sse2 or n in thorough_sse2:
             cfgs.append('sse2')
-        if n in generic:
+        if n in generic or n in thorough_generic:
             cfgs.append('generic')
         tier = 'quick' if (n in sse2 or n in generic) else 'thorough'
         K('%s_n%d' % (base, n), 'B', props, fns, desc + ' [every abstract state with %d buckets]' % n, cfgs=cfgs, tier=tier,
@@ -103,7 +103,8 @@ K('h_find_unlawful_n8', 'B', ['C05', 'C02'], ['RawTableInner::find_inner'],
   'find_inner with arbitrary eq answers and unrelated hash: terminates, only full in-range buckets offered/returned [every wf state with 8 buckets]',
   tier='quick', timeout=1500, mem=4, bound='buckets == 8')
 raw_b('h_find_insert_slot', ['C01', 'C06', 'C13', 'C02'], ['RawTableInner::find_insert_slot', 'RawTableInner::fix_insert_slot', 'RawTableInner::find_insert_slot_in_group'],
-      'find_insert_slot: in range, EMPTY or DELETED, no group with an EMPTY byte probed before the slot group')
+      'find_insert_slot: in range, EMPTY or DELETED, no group with an EMPTY byte probed before the slot group',
+      generic=(8, 16), thorough_generic=())
 raw_b('h_find_or_insert_slot', ['C01', 'C06', 'C14'], ['RawTableInner::find_or_find_insert_slot_inner'],
       'find_or_find_insert_slot_inner: Ok exactly for stored elements, Err slot satisfies the insert-slot contract')
 raw_b('h_insert_in_slot', ['C01', 'C06', 'C13'], ['RawTable::insert_in_slot', 'RawTableInner::record_item_insert_at', 'RawTableInner::set_ctrl'],
